@@ -22,7 +22,21 @@ func c10Setup(seed int64, idx int) (*tcCtx, influxql.Valuer, *tcNode) {
 	rg := mon.NewRng(seed, "c10", idx)
 	c := &tcCtx{rg: rg, now: fixedNow, extremes: true}
 	var valuer influxql.Valuer
-	switch rg.Intn(5) {
+	switch rg.Intn(9) {
+	case 5, 6:
+		// two zones with one name and different offsets
+		c.useNow = true
+		c.loc = []*time.Location{time.FixedZone("XST", 5*3600+1800), time.FixedZone("XST", -3*3600)}[rg.Intn(2)]
+		valuer = &influxql.NowValuer{Now: fixedNow, Location: c.loc}
+	case 7:
+		// clock and zone through stacked valuers, a zone-less one first
+		c.useNow = true
+		c.loc, _ = time.LoadLocation("Asia/Kolkata")
+		valuer = influxql.MultiValuer(influxql.MultiValuer(influxql.MapValuer{"unused": int64(1)}), &influxql.NowValuer{Now: fixedNow, Location: c.loc})
+	case 8:
+		c.useNow = true
+		c.loc, _ = time.LoadLocation("America/New_York")
+		valuer = influxql.MultiValuer(&influxql.NowValuer{Now: fixedNow}, influxql.MultiValuer(influxql.MapValuer{}, &influxql.NowValuer{Now: fixedNow.Add(time.Hour), Location: c.loc}))
 	case 0:
 		valuer = nil
 	case 1:
@@ -177,7 +191,7 @@ func c10One(c *Ctx, idx int, local map[string]int64) {
 
 func checkC10(c *Ctx) (string, bool, []string) {
 	r := c.R
-	rule := "conditions = random conjunction trees (any nesting of AND and parentheses) of 0-4 time bounds and 0-3 other sub-trees (which may contain OR); a time bound is time (any letter case) on either side of = < <= > >= against integer nanoseconds, RFC3339Nano (UTC or with offset), date, date-time, a duration, now(), now() +- d, with instants from a boundary set (epoch +-1ns, MinTime+1, MaxTime, int64 extremes); valuer nil / NowValuer in 3 zones / MultiValuer. Each condition is evaluated by the reference on every bound +-{0,1ns} and far timestamps x all tag and field combinations (16 per timestamp) and compared with in-range AND residual; the range bounds are compared exactly; the condition handed in must be unchanged afterwards and splitting it a second time must give the same range and residual. Non-trivial = every condition; distinct by (text, valuer kind)."
+	rule := "conditions = random conjunction trees (any nesting of AND and parentheses) of 0-4 time bounds and 0-3 other sub-trees (which may contain OR); a time bound is time (any letter case) on either side of = < <= > >= against integer nanoseconds, RFC3339Nano (UTC or with offset), date, date-time, a duration, now(), now() +- d, with instants from a boundary set (epoch +-1ns, MinTime+1, MaxTime, int64 extremes); valuer nil / NowValuer in 3 zones and in two fixed zones that share a name / MultiValuer / clock and zone through stacked valuers. Each condition is evaluated by the reference on every bound +-{0,1ns} and far timestamps x all tag and field combinations (16 per timestamp) and compared with in-range AND residual; the range bounds are compared exactly; the condition handed in must be unchanged afterwards and splitting it a second time must give the same range and residual. Non-trivial = every condition; distinct by (text, valuer kind)."
 	assume := []string{"float bounds and != on time are outside the stated domain and not generated", "now() is used only with a clock-carrying valuer"}
 	if c.Replay != nil {
 		c10One(c, replayInt(c, "idx"), map[string]int64{})
